@@ -27,7 +27,8 @@
    Property theorems only. *)
 From TV Require Import Base Model.Wiring Model.Ticker Model.Component Model.Sim Model.SimTime Model.Inline
   Proofs.WiringP Proofs.TickerP Proofs.FlattenP Proofs.SimP Proofs.LatestP Proofs.EqvP Proofs.ParDevP Proofs.InlineP Proofs.InlineLoopP
-  Oracle.SimCheck Oracle.SimOracle Proofs.InlineScopeP Proofs.InlineLatestP Proofs.FrameP Proofs.EqvCongP Proofs.InlineAllP Proofs.InlineAllLatestP.
+  Oracle.SimCheck Oracle.SimOracle Proofs.InlineScopeP Proofs.InlineLatestP Proofs.FrameP Proofs.EqvCongP Proofs.InlineAllP Proofs.InlineAllLatestP
+  Model.NSim Model.NNSim Proofs.NScheduleP Proofs.NDetP Proofs.NDetScopeP Proofs.SimNTP.
 Open Scope Z_scope.
 
 Theorem C03_route_exact : forall (conns : list conn) src (ch : list (port * Z)) ic ip v,
@@ -176,6 +177,69 @@ Example C03_any_nesting_example :
   let s := fst (fst (sim_run cfg (table_dev tab) 10 8 0 100000)) in
   (lookup 1%positive (d_last (dcs s 6%positive)) <> None /\ lookup 1%positive (d_last (dcs s 11%positive)) <> None).
 Proof. vm_compute. repeat split; try discriminate; try reflexivity; intuition. Qed.
+
+(* (7) ... with interrupts of top-level devices (those of [ys]) at any points between the ticks *)
+Theorem C03_through_any_nesting_script : forall cfg k ys (devf : devfun) f initial script,
+  scope_all k (S f) ys cfg = true ->
+  flat_wfb (level_of (inline_all k cfg) top) = true ->
+  (forall d k t i, NoDup (keys (fst (devf d k t i)))) ->
+  (forall d k t i i', NoDup (keys i) -> NoDup (keys i') -> eqv i i' -> devf d k t i = devf d k t i') ->
+  (forall y w, In (IStim y w) script -> In y ys) ->
+  (forall y, In y ys -> y <> ext_id /\ y <> exp_id) ->
+  let s := fst (sim_script_from_start cfg devf (S f) initial script) in
+  forall u p d q, In (u, p, d, q) (l_conns (level_of (inline_all k cfg) top)) ->
+  forall v, lookup p (d_last (dcs s u)) = Some v -> lookup q (d_inputs (dcs s d)) = Some v.
+Proof.
+  intros cfg k ys devf f initial script Hs Hwf Hnd Hext Hys Hreal s u p d q Hk.
+  exact (nested_latest_any_depth_script devf Hnd Hext f initial script ys k cfg Hys Hreal Hs (flat_wfb_sound _ Hwf) u p d q Hk).
+Qed.
+
+(* (8) ... and under EVERY schedule of the nested simulation (any answer order at every level, tick after tick; the
+   nested half of C08): at the end of any such run every wire of the resolved wiring carries its source's latest report *)
+Theorem C03_through_any_nesting_any_schedule : forall cfg k ys (devf : devfun) f initial script sA obA,
+  scope_all k (S f) ys cfg = true ->
+  flat_wfb (level_of (inline_all k cfg) top) = true ->
+  subtree_okb cfg (S (S f)) top = true ->
+  (forall d k t i, NoDup (keys (fst (devf d k t i)))) ->
+  (forall d k t i i', NoDup (keys i) -> NoDup (keys i') -> eqv i i' -> devf d k t i = devf d k t i') ->
+  (forall y w, In (IStim y w) script -> In y ys) ->
+  (forall y, In y ys -> y <> ext_id /\ y <> exp_id) ->
+  nnrun cfg devf (S f) initial script sA obA ->
+  forall u p d q, In (u, p, d, q) (l_conns (level_of (inline_all k cfg) top)) ->
+  In u (devices_below cfg (S (S f)) top) -> In d (devices_below cfg (S (S f)) top) ->
+  forall v, lookup p (d_last (dcs sA u)) = Some v -> lookup q (d_inputs (dcs sA d)) = Some v.
+Proof.
+  intros cfg k ys devf f initial script sA obA Hs Hwf Hok Hnd Hext Hys Hreal HA u p d q Hk Hu Hd v Hv.
+  destruct (nnrun_is_sim cfg devf Hnd Hext (S f) initial script sA obA (subtree_okb_sound _ _ _ Hok) HA) as [[HD _] _].
+  destruct (HD u Hu) as [Elast _]. destruct (HD d Hd) as [_ [Einp _]].
+  rewrite (Einp q). apply (C03_through_any_nesting_script cfg k ys devf f initial script Hs Hwf Hnd Hext Hys Hreal u p d q Hk).
+  rewrite <- Elast. exact Hv.
+Qed.
+
+(* the premises of (7) and (8) hold for the nesting of the example above with interrupts of the source 3 and the sink 8,
+   and the last-dispatched-first strategy at all levels yields a run of (8) in which values have crossed every boundary *)
+Example C03_any_schedule_example :
+  let cfg : config :=
+    [(1%positive, {| l_order := [(3%positive, KDev); (4%positive, KSys 2%positive); (7%positive, KSys 3%positive); (8%positive, KDev)];
+                     l_conns := [(3, 1, 4, 1); (4, 1, 7, 1); (7, 1, 8, 1); (3, 2, 8, 2)]%positive |});
+     (2%positive, {| l_order := [(5%positive, KDev); (6%positive, KDev)];
+                     l_conns := [(1, 1, 5, 1); (5, 1, 6, 1); (6, 1, 2, 1)]%positive |});
+     (3%positive, {| l_order := [(9%positive, KDev); (10%positive, KSys 4%positive)];
+                     l_conns := [(1, 1, 9, 1); (9, 1, 10, 1); (10, 1, 2, 1)]%positive |});
+     (4%positive, {| l_order := [(11%positive, KDev)]; l_conns := [(1, 1, 11, 1); (11, 1, 2, 1)]%positive |})] in
+  let tab : dev_table := [(3%positive, (11, 300, 1)); (5%positive, (12, 700, 1)); (6%positive, (13, 500, 4)); (8%positive, (14, 400, 0));
+                          (9%positive, (15, 600, 1)); (11%positive, (16, 900, 4))] in
+  let script := [ITick; ITick; IStim 3%positive 650; ITick; ITick; IStim 8%positive 1000; ITick; ITick] in
+  scope_all 5 8 [3%positive; 8%positive] cfg = true /\ subtree_okb cfg 9 top = true /\
+  match nnrun_from_start cfg (table_dev tab) pick_last 100 8 0 script with
+  | Some (s, ob) =>
+      lookup 1%positive (d_last (dcs s 6%positive)) <> None /\
+      lookup 1%positive (d_last (dcs s 6%positive)) = lookup 1%positive (d_inputs (dcs s 9%positive)) /\
+      lookup 1%positive (d_last (dcs s 11%positive)) <> None /\
+      lookup 1%positive (d_last (dcs s 11%positive)) = lookup 1%positive (d_inputs (dcs s 8%positive))
+  | None => False
+  end.
+Proof. vm_compute. repeat split; try discriminate; reflexivity. Qed.
 
 (* values are dictionaries: nothing the whole-simulation model computes depends on the order in
    which an association list holds its entries.  Two nested ticks (any configuration with
